@@ -76,6 +76,7 @@ def run(ck):
     ck.run_rule(rule_constructors)
     ck.run_rule(rule_closed_construction)
     ck.run_rule(rule_colour_castle_ep)
+    ck.run_rule(rule_double_push_flag)
     ck.run_rule(rule_derives)
     ck.run_rule(rule_accessor_wiring)
     ck.run_rule(rule_conversions)
@@ -614,3 +615,48 @@ def rule_conversions(ck):
             inner = p.ret[2][0]
             good = inner == ("agg", "weechess_core::board::Square::Square", (("param", 1),))
     ck.req(good, "L12.square_try_from", "u8->Square", b.where(), "TryFrom<u8> for Square does not wrap its argument unchanged on the Ok path")
+
+
+def rule_double_push_flag(ck):
+    """L13: the double-push flag is an attribute derived by the base constructor: it is set exactly for a pawn whose origin and destination
+    ranks are more than one apart - in either direction (the comparison is on the absolute rank distance, so both colours are covered)."""
+    prog = ck.prog
+    pfx = "<u32 as " + TRAIT + ">::"
+    bm = ck.body(MOVE + "::by_moving", "L13")
+    from props.common import guards_of
+    tb = TermBuilder(prog, bm)
+    sites = [(bb, t) for bb, t in bm.calls() if callee_name(t) == pfx + "set_double_pawn" and not bm.is_cleanup(bb)]
+    ck.req(len(sites) == 1, "L13.site", "by_moving", bm.where(), "expected one set_double_pawn call in by_moving, found %d" % len(sites))
+    for bb, t in sites:
+        val = const_value(tb.operand(t["args"][1]))
+        g = guards_of(prog, bm, bb, tb)
+        pawn = dist = False
+        extra = []
+        for c, tk in g:
+            if c[0] == "call" and c[1].endswith("::eq") and tk is True and any(x[0] == "call" and x[1].endswith("PieceIndex::piece") and x[2] == (("param", 1),) for x in c[2]) \
+                    and any(_variant_of_const(x) == "Pawn" for x in c[2]):
+                pawn = True
+                continue
+            if c[0] == "bin" and c[1] == "Gt" and tk is True and const_value(c[3]) == 1 and c[2][0] == "call" and c[2][1].endswith("Rank::abs_distance_to"):
+                a, b_ = c[2][2]
+                ranks = {show(a), show(b_)}
+                want = {show(("call", "weechess_core::board::Square::rank", (("param", 2),))), show(("call", "weechess_core::board::Square::rank", (("param", 3),)))}
+                if ranks == want:
+                    dist = True
+                    continue
+            extra.append((show(c)[:80], tk))
+        ck.req(val is True and pawn and dist and not extra, "L13.double_push", "by_moving", bm.where(t["line"]),
+               "the double-push flag is not set exactly under `piece is a pawn and |origin rank - destination rank| > 1` (pawn test %s, distance test %s, other conditions %s)"
+               % (pawn, dist, extra), "pawn && abs rank distance > 1")
+    # abs_distance_to is symmetric
+    ad = prog.body("weechess_core::board::Rank::abs_distance_to")
+    if ad is None:
+        ck.missing("L13", "Rank::abs_distance_to")
+        return
+    from evalfn import FnModel
+    try:
+        m = FnModel(prog, ad, inline_depth=1)
+        ok = all(m(a, b_) == abs(a - b_) for a in range(8) for b_ in range(8))
+    except Exception as e:
+        ok = False
+    ck.req(ok, "L13.abs_distance", "Rank::abs_distance_to", ad.where(), "Rank::abs_distance_to is not |a - b| on 0..7")
